@@ -206,6 +206,8 @@ class C23(Check):
         info = [None] * n
         steps, violations = [], []
         eth_seen = [0] * n
+        cands = [[0] + list(case["draws"][q]) + [3] * 20 for q in range(n)]       # the ethertypes a participant tries, in order
+        attempt = [0] * n
         try:
             for k in kids:
                 k.gates(gates)
@@ -256,9 +258,10 @@ class C23(Check):
                     if drawn != -1:
                         eth_seen[p] = drawn
                 if acting == "open_x" and status[p] == "gate" and k.at_gate == "open_x" and files == before:
-                    steps.append((p, "idle", -1))        # the attempt hit an existing file: nothing shared changed, the participant draws again
+                    attempt[p] += 1                      # the attempt hit an existing file: the participant draws the next ethertype
+                    steps.append((p, "open_x", cands[p][attempt[p]]))
                 else:
-                    steps.append((p, acting or ("begin_" + k._phase), drawn))
+                    steps.append((p, acting or ("begin_" + k._phase), -1))
                 running = [q for q in range(n) if status[q] == "running"]
                 inst = [q for q in range(n) if status[q] == "gate" and kids[q].at_gate in ("remove_old_pin", "attach", "obj_pin")]
                 if len(inst) > 1:
@@ -341,7 +344,7 @@ class C23(Check):
         if case["kind"] == "fmmu":
             return [o["windows"][q] for q in o["order"]]
         return [(-1 if o["files"] is None else o["files"]), -1 if o["pin"] is None else o["pin"], -1 if o["att"] is None else o["att"],
-                [[pc, (0 if e is None else e), (-1 if t is None else t)] for pc, e, t in o["final"]]]
+                [[pc, (0 if (e is None or pc == 16) else e), (-1 if (t is None or pc == 16) else t)] for pc, e, t in o["final"]]]
 
     def holds(self, case, o):
         if case["kind"] == "fmmu":
@@ -353,7 +356,10 @@ class C23(Check):
             return True
         if o["violations"]:
             kind, what, acting = o["violations"][0]
-            case["_leaver_race"] = all(v[0] == "P2" and v[2] in ("detach", "unpin") for v in o["violations"])
+            st = o["steps"]
+            pattern = any(a[1] == "rmdir" and any(b[0] != a[0] and b[1] == "rename" and any(c[0] == a[0] and c[1] in ("detach", "unpin") for c in st[j + 1:])
+                                                   for j, b in enumerate(st) if j > i) for i, a in enumerate(st))
+            case["_leaver_race"] = pattern and all(v[0] == "P2" for v in o["violations"])
             return f"{kind}: {what}; schedule {case['sched']} steps {[(a, b) for a, b, c in o['steps']]}"
         bad = [e for e in o["errors"] if "FileNotFoundError" not in e and "FileExistsError" not in e]
         if bad:
